@@ -46,6 +46,34 @@ Theorem C08_a_procedure_inside_the_block_goes_as_a_whole :
     required_of (pre ++ [s0] ++ mid ++ [e0] ++ post) = filter is_mark pre ++ required_of post.
 Proof. exact required_of_drops_whole_procedures. Qed.
 
+(* join_blocks loses no directive and keeps the order: block1 keeps its own, the directives of block2 at displacement d follow
+   whatever block1 has at size1 + d, block2's entry goes, every other block is untouched *)
+Theorem C08_join_keeps_every_directive :
+  forall s b1 b2 size1 el k,
+    b1 <> b2 -> NoDup (map fst (cfi s)) -> (forall dm, aget b2 (cfi s) = Some dm -> NoDup (map fst dm)) ->
+    cfi_get (cfi (join_cfi s b1 b2 size1)) el k =
+      if Nat.eqb el b2 then []
+      else if Nat.eqb el b1 then cfi_get (cfi s) b1 k ++ cfi_get (cfi s) b2 (k - size1)
+      else cfi_get (cfi s) el k.
+Proof. exact join_cfi_lookup. Qed.
+
+(* remove_block: the directives that have to survive (C08_required_directives_are_marks_in_order) move in front of what the next code
+   block has at its start, else behind what the previous code block has at its end, else stay on the emptied block; the rest of the
+   removed block's entry goes and every other entry is untouched *)
+Theorem C08_removal_rehomes_the_required_directives :
+  forall s b keep prev next_ el k,
+    tab_truthy (cfi s) = true -> keep <> [] -> NoDup (map fst (cfi s)) ->
+    (forall n, next_ = Some n -> n <> b) -> (forall p, prev = Some p -> p <> b) ->
+    cfi_get (cfi (remove_cfi_directives s b keep prev next_)) el k =
+      match rehome_target s prev next_ with
+      | Some (t, d, front) =>
+          if Nat.eqb el b then []
+          else if Nat.eqb el t && Z.eqb k d then (if front then keep ++ cfi_get (cfi s) t d else cfi_get (cfi s) t d ++ keep)
+          else cfi_get (cfi s) el k
+      | None => if Nat.eqb el b then (if Z.eqb k 0 then keep else []) else cfi_get (cfi s) el k
+      end.
+Proof. exact remove_cfi_directives_rehomes. Qed.
+
 Example C08_nonvacuous :
   required_of [(DRemember, 1); (DOther, 2); (DStart, 3); (DOther, 4); (DRemember, 5); (DEnd, 6); (DRestore, 7); (DStart, 8)]
   = [(DRemember, 1); (DRestore, 7); (DStart, 8)] /\
